@@ -244,6 +244,21 @@ impl Prop for C17 {
                 .join("\t");
             rows.push(Row { chrom: ch.name.clone(), s, e, rest, ci });
         }
+        // a third of the cases repeat some rows verbatim on another chromosome (same start, end and columns)
+        // directly after the original: neighbouring rows that differ in the chromosome only
+        if rows.len() % 3 == 0 && input.chroms.len() >= 2 {
+            let mut k = 0;
+            while k < rows.len() {
+                let r = &rows[k];
+                if let Some((cj, ch)) = input.chroms.iter().enumerate().find(|(cj, ch)| *cj != r.ci && ch.size >= r.e) {
+                    let twin = Row { chrom: ch.name.clone(), s: r.s, e: r.e, rest: r.rest.clone(), ci: cj };
+                    rows.insert(k + 1, twin);
+                    k += 1;
+                }
+                k += 4;
+            }
+            obs.label("rows-repeated-on-another-chromosome");
+        }
         if case.long_col > 0 && !rows.is_empty() {
             let k = rows.len() / 2;
             let pad = "x".repeat(case.long_col as usize);
